@@ -65,6 +65,8 @@ func genC13(seed uint64, idx int, tier string) interface{} {
 		switch {
 		case r.Bool(pLong):
 			pl.Inputs = append(pl.Inputs, GenLongInput(ir, v))
+		case r.Bool(0.03): // hundreds of distinct keys: bounded caches overflow
+			pl.Inputs = append(pl.Inputs, GenManyDistinct(ir, v, fresh))
 		case r.Bool(0.15): // 1-4 KB: size-gated fast paths and pools
 			pl.Inputs = append(pl.Inputs, GenInput(ir, v, 60))
 		default:
